@@ -18,9 +18,16 @@ import (
 
 type monC18 struct {
 	spent map[string]string // secret -> kind, marked when an acceptance was observed
+	// "a failed request never makes a rejected credential acceptable": whether a second-factor
+	// code is one of the account's own is judged by C02's oracle, over the faulted history
+	second     monC02
+	faultsSeen int
 }
 
-func (c *monC18) Init(m *Machine) { c.spent = map[string]string{} }
+func (c *monC18) Init(m *Machine) {
+	c.spent = map[string]string{}
+	c.second.Init(m)
+}
 
 func shownCodes(r *harness.Resp) []string {
 	var out []string
@@ -42,8 +49,12 @@ func (c *monC18) After(m *Machine, s *Step) *Violation {
 		return nil
 	}
 	op, r := s.Op, s.Resp
+	if v := c.second.After(m, s); v != nil && strings.Contains(v.Sig, "completed-with-foreign-code") && c.faultsSeen > 0 {
+		return violation("C18", "foreign-code-accepted-after-failed-request:"+op.K, "after %d request(s) with a failed backend call: %s", c.faultsSeen, v.Detail)
+	}
 	fault := "none"
 	if r.Fired != "" {
+		c.faultsSeen++
 		fault = r.Fired
 		m.flag("fault-fired:" + r.Fired)
 		if op.FA >= 2 {
@@ -270,6 +281,7 @@ func c18Cfg(err500 bool, emailAuth bool) harness.Config {
 			{PID: "totp@x.io", Password: "Passw0rd!B", TOTP: true, Recovery: 2},
 			{PID: "sms@x.io", Password: "Passw0rd!C", Phone: "+15550002", Recovery: 2},
 			{PID: "unconf@x.io", Password: "Passw0rd!D", Unconfirmed: true, OTPs: 1},
+			{PID: "sms2@x.io", Password: "Passw0rd!A", Phone: "+15550009", Recovery: 1},
 		}}
 }
 
@@ -304,7 +316,7 @@ func c18Scenarios() []c18Scenario {
 		{Name: "otplogin-wrong", Target: Op{K: "otplogin", A: 0, Src: "lit", S: "0000-0000"}},
 		{Name: "otpadd", Setup: []Op{login0}, Target: Op{K: "otpadd"}, After: []Op{{K: "newsess"}, {K: "otplogin", A: 0, Src: "otp", SA: 0}}},
 		{Name: "otpclear", Setup: []Op{login0}, Target: Op{K: "otpclear"}},
-		{Name: "register-new", Target: Op{K: "register", A: -1, N: 0, Src: "lit", S: "Passw0rd!N"}, After: []Op{{K: "login", A: 4, Src: "pw", SA: 4}}},
+		{Name: "register-new", Target: Op{K: "register", A: -1, N: 0, Src: "lit", S: "Passw0rd!N"}, After: []Op{{K: "login", A: 5, Src: "pw", SA: 5}}},
 		{Name: "register-duplicate", Target: Op{K: "register", A: 0, Src: "lit", S: "Passw0rd!N"}},
 		{Name: "confirm-valid", Setup: []Op{{K: "reconfirm", A: 3}}, Target: Op{K: "confirm", A: 3, Src: "cnftok", SA: 3}, After: []Op{{K: "confirm", A: 3, Src: "cnftok", SA: 3}, {K: "login", A: 3, Src: "pw", SA: 3}}},
 		{Name: "confirm-invalid", Setup: []Op{{K: "reconfirm", A: 3}}, Target: Op{K: "confirm", A: 3, Src: "cnftok", SA: 3, Mut: "flip", MA: 300}},
@@ -341,6 +353,9 @@ func c18Scenarios() []c18Scenario {
 		{Name: "sms-validate-code", Setup: []Op{login2}, Target: Op{K: "smsvalidate", A: 2, Src: "smssess"}},
 		{Name: "sms-validate-recovery", Setup: []Op{login2}, Target: Op{K: "smsvalidate", A: 2, Src: "rec", SA: 2, F: true},
 			After: []Op{{K: "newsess"}, {K: "advance", N: 12}, login2, {K: "smsvalidate", A: 2, Src: "rec", SA: 2, F: true}}},
+		// an abandoned SMS step of another account left its code in the session; the next account's code request fails
+		{Name: "sms-login-over-abandoned-step", Setup: []Op{{K: "login", A: 4, Src: "pw", SA: 4}, {K: "advance", N: 12}}, Target: login2,
+			After: []Op{{K: "smsvalidate", A: 2, Src: "sms", SA: 4}, {K: "smsvalidate", A: 2, Src: "smssess"}}},
 		{Name: "sms-resend", Setup: []Op{login2, {K: "advance", N: 12}}, Target: Op{K: "smsresend", S: "validate"}},
 		{Name: "email-verify-start", Setup: []Op{login0}, Target: Op{K: "evstart", N: 0}},
 		{Name: "email-verify-end", Setup: []Op{login0, {K: "evstart", N: 0}}, Target: Op{K: "evend", A: 0, N: 0, Src: "evtok", SA: 0}},
